@@ -125,7 +125,7 @@ def reply_json(reply, numeric, enum):
 def project_result(pool, m, resp):
     pb = type(resp).pb(resp) if hasattr(type(resp), 'pb') else resp
     full = pb.DESCRIPTOR.full_name
-    rtype = full[-1] if full.rsplit('.', 1)[-1] in ('RespA', 'RespB') else '?'
+    rtype = full[-1] if full.rsplit('.', 1)[-1] in ('RespA', 'RespB', 'RespP') else '?'
     try:
         d = pool.decode(m['resp'], pb.SerializeToString())
         res = dict(name=[str(d['name'])] if 'name' in d else [], kind=[str(d['kind'])] if 'kind' in d else [],
